@@ -42,6 +42,12 @@ def why(r):
         return "one attempt fewer to find an unused random rlock name"
     if 'os.Remove(m.path)' in old:
         return "only the error of removing a control file is inverted: the call does not fail in any explored run"
+    if f.endswith('query.go') and ('return nil, 0,' in old or 'return false, err' in old):
+        return "a count / flag returned next to a non-nil error: every caller looks at the error first"
+    if 'columnNamesMap[' in old:
+        return "map used as a set: only the presence of the key is tested"
+    if 'len(fpath) < 1' in old:
+        return "a resolved file path is never one character long"
     return "not analysed"
 
 cls = collections.Counter(r['class'] for r in rs)
